@@ -962,14 +962,14 @@ class Fetcher:
                 tp_state.reset_to(committed.offset)
 
         topic_data = collections.defaultdict(list)
-        needs_reset = []
+        needs_reset = {}
         for tp in tps:
             tp_state = assignment.state_value(tp)
             if not tp_state.awaiting_reset:
                 continue
-            needs_reset.append(tp)
 
             strategy = tp_state.reset_strategy
+            needs_reset[tp] = strategy
             assert strategy is not None
             log.debug(
                 "Resetting offset for partition %s using %s strategy.",
@@ -995,11 +995,12 @@ class Fetcher:
         except asyncio.CancelledError:
             return needs_wakeup
 
-        for tp in needs_reset:
+        for tp, strategy in needs_reset.items():
             offset = offsets[tp][0]
             tp_state = assignment.state_value(tp)
-            # There could have been some `seek` call while fetching offset
-            if tp_state.awaiting_reset:
+            # There could have been some `seek` call while fetching offset,
+            # including a `seek_to_*` call that asks for a different offset
+            if tp_state.awaiting_reset and tp_state.reset_strategy == strategy:
                 tp_state.reset_to(offset)
         return needs_wakeup
 
